@@ -153,6 +153,9 @@ def run(rep, tier, seed):
                               "create_file 0 %s 2" % hexs("fill0_more%d.bin" % c), "write_pat 2 %d %d" % (cs, c), "drop_file 2", "stats",
                               "remove 0 %s" % hexs("fill0_%d.bin" % c), "stats", "remove 0 %s" % hexs("fill0_more%d.bin" % c), "stats"]
                 scripts.append(head + lines + ["drop_all", "unmount", "mount 1 0 lossy", "stats", "unmount"])
+    # the same volumes filled to the very top by ordinary writes (chains END in the highest cluster number), removed, truncated, re-filled
+    for bits in ((12,) if tier == "quick" else (12, 16)):
+        scripts += sessions.top_fill_sessions(bits)
     scripts += [sc_ for _, sc_ in sessions.matrix_sessions(rng, tier)]        # the standard script (stats at several points) on every boundary volume
     judged = sessions.run_judged(scripts, flags=("infos",), shards=16)
     nstats = 0; nnospace = 0; nunmount32 = 0; ncreate_nospace = 0
